@@ -5,6 +5,7 @@ each case; the generated call list is run (1) through a real client.BatchProxy -
 real Daemon.handleRequest and (2) call by call through a second real Proxy against a fresh identical object.
 Model side: lean/PyroModel/Batch.lean driven by drv_c11 with the same tables.
 """
+import copy
 import json
 import os
 import re
@@ -20,17 +21,18 @@ LEAN_MODEL_TARGETS = ["drv_c11"]
 LEAN_PROOF_TARGETS = ["PyroProps.C11"]
 AUDIT_FILES = ["PyroModel/Batch.lean", "PyroModel/Gen/C11.lean", "PyroProofs/Batch.lean", "PyroProps/C11.lean"]
 THEOREMS = ["Pyro.C11.C11_refines", "Pyro.C11.C11_oneway", "Pyro.C11.C11_positions", "Pyro.C11.C11_submit_failure",
-            "Pyro.C11.C11_stops", "Pyro.C11.C11_executed_prefix", "Pyro.C11.C11_sequential_spec",
+            "Pyro.C11.C11_stops", "Pyro.C11.C11_executed_prefix", "Pyro.C11.C11_sequential_spec", "Pyro.C11.C11_program",
             "Pyro.C11.C11_pre_failure", "Pyro.C11.C11_statement_holds", "Pyro.C11.C11_statement_fails_when_pre_raises",
             "Pyro.C11.C11_gen_dumpsCall_accepts_no_kwargs", "Pyro.C11.C11_gen_wrapper_transportable", "Pyro.C11.C11_gen_server_probes", "Pyro.C11.C11_gen_single_probes",
             "Pyro.C11.C11_gen_generator_probes", "Pyro.C11.C11_gen_client_facts"]
-SUITES = ["batch", "sequential"]
+SUITES = ["batch", "sequential", "program"]
 RULE = ("a case = a generated finite-state reference object (1..4 states; per (state, method, argument) a row: next state + "
         "returned value or raised exception; state dependent availability of two dynamic members) + a call list of length "
         "0..12 (thorough: ..200) over exposed methods, unexposed / private / missing / dotted names and 9 argument shapes "
         "(3 of them not fitting the signature), 16 return values (4 of them exception OBJECTS returned as plain values) and 11 "
         "raised exceptions (3 of them instances no serializer can send, of types whose other instances can) x serializer (serpent, json, marshal, msgpack) x normal/oneway x server type "
-        "(thread, multiplex), all from VERIF_SEED; the two daemons live for the whole run, so every case runs behind the history of "
+        "(thread, multiplex), all from VERIF_SEED; plus PROGRAMS over up to 4 BatchProxy objects on one Proxy (record a call / "
+        "copy.copy / submit, 3..14 steps; non-trivial = at least two submits and two executed calls); the two daemons live for the whole run, so every case runs behind the history of "
         "all earlier ones (a failure is re-tried on fresh daemons and its history delta-debugged); ~2.5% of the oneway batches keep "
         "their first member busy until the next request on the connection could have arrived; each case runs once through a real BatchProxy and once call by call on a "
         "fresh identical object, both over a unix socket against a real Daemon. Non-trivial = at least two calls reached "
@@ -41,7 +43,10 @@ ASSUMPTIONS = [
     "results are transportable by the serializer in use (values of the generator's pool, incl. exception objects as values): a "
     "RESULT that cannot be serialised fails the whole reply, which is outside C11's quantifier; a raised exception whose instance "
     "cannot be serialised is inside (plain call and batch member both deliver the describing PyroError of _serializeException); "
-    "exception classes are builtin or Pyro5.errors classes (unknown classes are C07's subject)",
+    "exception classes are builtin or Pyro5.errors classes or an application class with registered class_to_dict / "
+    "dict_to_class converters (classes the client cannot re-create are C07's subject)",
+    "a BatchProxy whose submission itself raised is not used again (it keeps its calls; what re-using it should do is not "
+    "stated by C11)",
     "methods do not raise CommunicationError/SecurityError themselves (a single call then loses its reply by design; the batch "
     "delivers the exception) and do not return iterators (batch mode cannot stream)",
     "requests on one connection are served in order (used to observe the state after a oneway batch by a following normal call)",
@@ -84,7 +89,33 @@ RETURNED_EXC_VALUES = (12, 13, 14, 15)
 # instances of the same types (1, 4, 5, E_NOROW) can; both the batch and the plain call must then deliver the
 # describing PyroError of Daemon._serializeException
 OPAQUE = object()
-N_EXC = 11
+N_EXC = 12
+
+
+class RefError(Exception):
+    """exception 12: an application exception class that travels through converters registered with
+    SerializerBase.register_class_to_dict / register_dict_to_class (the documented way); its dict form has a
+    "__class__" tag and no "__exception__" marker.  Registered while an Env is alive, see Env.__init__ / close."""
+
+
+_REF_ERROR_TAG = "c11harness.RefError"
+_registered = [0]
+
+
+def _register_ref_error():
+    from Pyro5 import serializers
+    if _registered[0] == 0:
+        serializers.SerializerBase.register_class_to_dict(RefError, lambda e: {"__class__": _REF_ERROR_TAG, "args": list(e.args)})
+        serializers.SerializerBase.register_dict_to_class(_REF_ERROR_TAG, lambda name, d: RefError(*d["args"]))
+    _registered[0] += 1
+
+
+def _unregister_ref_error():
+    from Pyro5 import serializers
+    _registered[0] -= 1
+    if _registered[0] == 0:
+        serializers.SerializerBase.unregister_class_to_dict(RefError)
+        serializers.SerializerBase.unregister_dict_to_class(_REF_ERROR_TAG)
 UNSENDABLE = {"KeyError": 9, "ValueError": 10, "NamingError": 11}
 
 
@@ -93,7 +124,8 @@ def _exc_pool():
     return {1: ValueError("e1"), 2: ZeroDivisionError("division by zero"), 3: IndexError("e3", 3),
             4: errors.NamingError("e4"), 5: KeyError("k5"), 6: RuntimeError(), 7: TypeError("e7"),
             8: AssertionError("e8"),
-            9: KeyError(OPAQUE), 10: ValueError("bad handle", OPAQUE), 11: errors.NamingError(OPAQUE)}
+            9: KeyError(OPAQUE), 10: ValueError("bad handle", OPAQUE), 11: errors.NamingError(OPAQUE),
+            12: RefError("e12", 12)}
 
 
 def _norm(v):
@@ -234,6 +266,7 @@ class Env(object):
         self.Ref = make_ref_class()
         self.excs = _exc_pool()
         self.exc_ids = {(type(e).__name__, _key(e.args)): i for i, e in self.excs.items()}
+        _register_ref_error()
         self.daemons, self.threads, self.objs, self.uris, self.px, self.bp = {}, {}, {}, {}, {}, {}
         saved = config.SERVERTYPE
         try:
@@ -282,6 +315,7 @@ class Env(object):
                 pass
             self.threads[srv].join(10)
         shutil.rmtree(self.tmp, ignore_errors=True)
+        _unregister_ref_error()
 
     # ---- canonical forms --------------------------------------------------------------------
     def val_id(self, v):
@@ -405,6 +439,140 @@ def run_seq(env, case):
 
 
 _ADDR = re.compile(r"0x[0-9a-fA-F]+")
+
+
+# ------------------------------------------------------------------------------------------------
+# programs over several BatchProxy objects on one Proxy: record / copy.copy / submit  (model: runProg / specProg)
+# ------------------------------------------------------------------------------------------------
+def _fmt_ops(ops):
+    return ",".join(".".join(str(int(x)) if not isinstance(x, str) else x for x in op) for op in ops) or "-"
+
+
+def run_prog(env, case):
+    """the program on real BatchProxy objects -> (canonical line, per-submit details, the ops really performed).
+    A BatchProxy whose submission itself raised keeps its calls (client.py skips the reset); it is not used again:
+    later ops on it are dropped from the program (on every side)."""
+    srv, ser = case["srv"], case["ser"]
+    b, _ = env.objs[srv]
+    rows, dyn = _static_dyn(case)
+    b.reset(rows, dyn, case["q0"])
+    pb, _ = env.proxies(srv, ser)
+    bps, dead, eff, outs, seens = [env.client.BatchProxy(pb)], set(), [], [], []
+    for op in case["ops"]:
+        i = op[1]
+        if i >= len(bps) or i in dead:
+            continue
+        eff.append(list(op))
+        if op[0] == "r":
+            args, kwargs = ARGS[op[3]]
+            bps[i].__getattr__(NAMES[op[2]])(*args, **kwargs)
+        elif op[0] == "c":
+            bps.append(copy.copy(bps[i]))                  # BatchProxy.__copy__
+        else:
+            oneway = bool(op[2])
+            raw_vals, exc = [], None
+            try:
+                r = bps[i](oneway=True) if oneway else bps[i]()
+            except Exception as e:      # noqa
+                dead.add(i)
+                seen, exc, kind = "submit:" + env.exc_id(e), e, "submit"
+            else:
+                if oneway:
+                    pb._pyroInvoke("sync", (), {})
+                    seen, kind = ("nothing", "nothing") if r is None else ("returned:" + repr(r)[:40], "returned")
+                else:
+                    try:
+                        for v in r:
+                            raw_vals.append(v)
+                    except Exception as e:      # noqa
+                        exc = e
+                    seen = "stream:%s:%s" % (",".join(env.val_id(v) for v in raw_vals) or "-", env.exc_id(exc) if exc is not None else "-")
+                    kind = "stream"
+            seens.append(seen)
+            outs.append({"kind": kind, "vals": raw_vals, "exc": exc, "q": b.q, "log": list(b.log), "sync_at": None})
+    line = "q=%d log=%s outs=%s" % (b.q, _fmt_log(b.log), "|".join(seens) or "-")
+    return line, outs, eff
+
+
+def run_prog_seq(env, case, eff):
+    """the reference: the same program, every submit replaced by its recorded calls made one by one on the twin.
+    The lists are kept here as VALUES (a copy is independent of its original) — that is the specification."""
+    srv, ser = case["srv"], case["ser"]
+    _, s = env.objs[srv]
+    rows, dyn = _static_dyn(case)
+    s.reset(rows, dyn, case["q0"])
+    _, ps = env.proxies(srv, ser)
+    lists, outs = [[]], []
+    for op in eff:
+        i = op[1]
+        if op[0] == "r":
+            lists[i] = lists[i] + [[op[2], op[3]]]
+        elif op[0] == "c":
+            lists.append(list(lists[i]))
+        else:
+            vals, exc = [], None
+            for n, a in lists[i]:
+                args, kwargs = ARGS[a]
+                name = NAMES[n]
+                try:
+                    v = getattr(ps, name)(*args, **kwargs) if name in ps._pyroMethods else ps._pyroInvoke(name, args, kwargs)
+                except Exception as e:      # noqa
+                    exc = e
+                    break
+                vals.append(v)
+            outs.append({"vals": vals, "exc": exc, "q": s.q, "log": list(s.log), "calls": lists[i], "oneway": bool(op[2]), "bp": i})
+            lists[i] = []
+    return outs
+
+
+def judge_prog(env, case, bouts, souts, eff):
+    """every submit of the program judged like a single batch against the one-by-one run of ITS recorded calls"""
+    for k, (bres, sres) in enumerate(zip(bouts, souts)):
+        sub = dict(case, oneway=sres["oneway"], calls=sres["calls"])
+        v = judge(env, sub, bres, sres)
+        if v is not None:
+            sig, desc = v
+            if sig in ("executed-after-failure", "executed-too-few", "state-differs"):
+                sig = "submit-does-not-run-its-recorded-calls"
+            return ("program:" + sig, "program [%s], submit #%d (BatchProxy %d, on which %d call(s) were recorded): %s"
+                    % (_fmt_ops(eff), k + 1, sres["bp"], len(sres["calls"]), desc))
+    return None
+
+
+def gen_prog(rng, sers=SERIALIZERS):
+    base = gen_case(rng, 6, sers)
+    pool = list(base["calls"])
+    nops = rng.randint(3, 14)
+    ops, nbp, pending = [], 1, {0: 0}
+    for _ in range(nops):
+        x = rng.random()
+        i = rng.randrange(nbp)
+        if x < 0.55:
+            n, a = pool.pop(0) if pool and rng.random() < 0.5 else (rng.choice([0, 1, 2]), rng.choice(GOOD_ARGS))
+            ops.append(["r", i, n, a])
+            pending[i] = pending.get(i, 0) + 1
+        elif x < 0.72 and nbp < 4:
+            ops.append(["c", i])
+            pending[nbp] = pending.get(i, 0)
+            nbp += 1
+        else:
+            ops.append(["s", i, int(rng.random() < 0.25)])
+            pending[i] = 0
+    rest = [i for i in range(nbp) if pending.get(i)]
+    rng.shuffle(rest)
+    ops += [["s", i, 0] for i in rest]
+    return dict(base, calls=[], ops=ops, oneway=False, hold=False)
+
+
+def verdict(env, case):
+    """both real runs of any kind of case + the property on them -> (verdict | None, real line(s), model line(s), suite(s), details)"""
+    if "ops" in case:
+        line, bouts, eff = run_prog(env, case)
+        souts = run_prog_seq(env, case, eff)
+        return judge_prog(env, case, bouts, souts, eff), {"bouts": bouts, "souts": souts, "eff": eff, "line": line}
+    bline, bres = run_batch(env, case, bypass=bool(case.get("bypass")))
+    sline, sres = run_seq(env, case)
+    return judge(env, case, bres, sres), {"bline": bline, "sline": sline, "bres": bres, "sres": sres}
 
 
 def _exc_same(a, b):
@@ -605,7 +773,7 @@ def corpus_cases():
 # A failure is therefore re-tried on FRESH daemons, alone and then behind the earlier cases of the run, and the
 # earlier cases are cut down (delta debugging) to the few that are needed: the replay file is self-contained.
 # ------------------------------------------------------------------------------------------------
-_CASE_KEYS = ("ser", "oneway", "srv", "K", "q0", "dyn", "rows", "calls", "mode", "bypass", "hold")
+_CASE_KEYS = ("ser", "oneway", "srv", "K", "q0", "dyn", "rows", "calls", "mode", "bypass", "hold", "ops")
 
 
 def _slim(case):
@@ -616,11 +784,8 @@ def _verdict_on_fresh_daemon(case, history):
     env = Env(servers=[case["srv"]])
     try:
         for h in history:
-            run_batch(env, h, bypass=bool(h.get("bypass")))
-            run_seq(env, h)
-        _, bres = run_batch(env, case, bypass=bool(case.get("bypass")))
-        _, sres = run_seq(env, case)
-        return judge(env, case, bres, sres)
+            verdict(env, h)
+        return verdict(env, case)[0]
     finally:
         env.close()
 
@@ -662,7 +827,7 @@ def _run(ctx, name, n, maxlen, do_model, sers=SERIALIZERS):
     env = Env()
     per_sig = {}
     try:
-        cases = corpus_cases() + [gen_case(rng, maxlen, sers) for _ in range(n)]
+        cases = [c for c in corpus_cases() if "ops" not in c] + [gen_case(rng, maxlen, sers) for _ in range(n)]
         lines, reals = [], []
         done = []
         for case in cases:
@@ -733,8 +898,70 @@ def _run(ctx, name, n, maxlen, do_model, sers=SERIALIZERS):
         env.close()
 
 
+def _run_progs(ctx, name, n, do_model):
+    """programs over several BatchProxy objects (record / copy / submit): real BatchProxy objects vs the model's runProg,
+    and (oracle) vs the same program with every submit made one by one"""
+    rng = ctx.sub_rng(name)
+    pre = {s: (0 if ok else 1) for s, ok in c11_extract.dumps_call_probe()}
+    env = Env()
+    per_sig, done, lines, reals = {}, [], [], []
+    try:
+        cases = [c for c in corpus_cases() if "ops" in c] + [gen_prog(rng) for _ in range(n)]
+        for case in cases:
+            v, det = verdict(env, case)
+            eff = det["eff"]
+            ctx.evaluations += 1
+            ctx.count("program:cases")
+            ncopy = sum(1 for op in eff if op[0] == "c")
+            nsub = sum(1 for op in eff if op[0] == "s")
+            ctx.count("program:copies:" + ("0" if ncopy == 0 else "1" if ncopy == 1 else "2+"))
+            # a copy that diverges from its original before either is submitted
+            div = False
+            for k, op in enumerate(eff):
+                if op[0] == "c":
+                    orig, cp = op[1], 1 + sum(1 for o2 in eff[:k] if o2[0] == "c")
+                    for o2 in eff[k + 1:]:
+                        if o2[0] == "s" and o2[1] in (orig, cp):
+                            break
+                        if o2[0] == "r" and o2[1] in (orig, cp):
+                            div = True
+                            break
+            if div:
+                ctx.count("program:copy-diverges-before-first-submit")
+            if nsub >= 2 and len(det["bouts"]) and len(det["bouts"][-1]["log"]) >= 2:
+                ctx.nontriv(["prog", case["ser"], case["srv"], case["q0"], case["dyn"], case["rows"], eff])
+            if v is not None:
+                sig, desc = v
+                per_sig[sig] = per_sig.get(sig, 0) + 1
+                ctx.count("oracle-failure:" + sig)
+                if per_sig[sig] <= 2:
+                    hist, how = history_for(case, done, sig)
+                    ctx.fail(sig, desc + " — " + how, dict(case, history=hist or []))
+            if len(ctx.samples) < 7 and ncopy and nsub >= 2 and div:
+                ctx.sample({"program": _fmt_ops(eff), "ser": case["ser"], "real": det["line"]})
+            done.append(case)
+            if do_model:
+                lines.append("prog %d %d %s %s %s %s" % (pre.get(case["ser"], 0), case["q0"], _gate_token(case),
+                                                        ",".join(str(a) for a in BAD_ARGS),
+                                                        ",".join("%d.%d.%d.%d.%s.%d" % tuple(r) for r in case["rows"]) or "-",
+                                                        _fmt_ops(eff)))
+                reals.append((case, det["line"]))
+        if do_model:
+            outs = common.run_driver("drv_c11", lines)
+            ctx.corr_cases += len(lines)
+            nmis = 0
+            for (case, real), line, out in zip(reals, lines, outs):
+                if real != out:
+                    nmis += 1
+                    if nmis <= 20:
+                        ctx.mismatch("program", {"line": line if len(line) < 700 else line[:700] + "...", "case": case}, real[:400], out[:400])
+    finally:
+        env.close()
+
+
 def correspondence(ctx):
     _run(ctx, "corr", ctx.n(4000, 80000), 12, True)
+    _run_progs(ctx, "prog", ctx.n(700, 10000), True)
     if ctx.tier == "thorough":
         _run(ctx, "corr-long", 3000, 200, True)
 
@@ -744,6 +971,7 @@ def oracle(ctx):
     # in search mode: fresh cases, all serializers, longer batches
     if ctx.search_mode:
         _run(ctx, "search", ctx.n(3000, 20000), 24, False)
+        _run_progs(ctx, "search-prog", ctx.n(700, 5000), False)
 
 
 def replay(ctx, case):
@@ -755,10 +983,26 @@ def replay(ctx, case):
     env = Env()
     try:
         for i, h in enumerate(c.get("history") or []):
-            hb, _ = run_batch(env, h, bypass=bool(h.get("bypass")))
-            run_seq(env, h)
-            print("earlier batch %d on the same daemon (%s): %s  ->  %s" % (
-                i + 1, h["ser"], " ".join("%s#%d" % (NAMES[n], a) for n, a in h["calls"]), hb))
+            _, hd = verdict(env, h)
+            print("earlier %s %d on the same daemon (%s): %s  ->  %s" % (
+                "program" if "ops" in h else "batch", i + 1, h["ser"],
+                _fmt_ops(hd["eff"]) if "ops" in h else " ".join("%s#%d" % (NAMES[n], a) for n, a in h["calls"]),
+                hd.get("line") or hd.get("bline")))
+        if "ops" in c:
+            v, det = verdict(env, c)
+            print("program    : %s   (r.i.n.a = record call n#a on BatchProxy i, c.i = copy.copy(BatchProxy i), s.i.w = submit; %s, %s server)"
+                  % (_fmt_ops(det["eff"]), c["ser"], c["srv"]))
+            print("real       : %s" % det["line"])
+            for k, so in enumerate(det["souts"]):
+                print("submit #%d one by one (BatchProxy %d, recorded %s): vals=%s fail=%s   state after: q=%d log=%s" % (
+                    k + 1, so["bp"], " ".join("%s#%d" % (NAMES[n], a) for n, a in so["calls"]) or "-",
+                    ",".join(env.val_id(x) for x in so["vals"]) or "-", env.exc_id(so["exc"]) if so["exc"] is not None else "-",
+                    so["q"], _fmt_log(so["log"])))
+            if v:
+                print("VIOLATION reproduced [%s]: %s" % v)
+                return 1
+            print("not reproduced")
+            return 0
         bline, bres = run_batch(env, c, bypass=bool(c.get("bypass")))
         sline, sres = run_seq(env, c)
         print("calls      :", " ".join("%s%r" % (NAMES[n], ARGS[a]) for n, a in c["calls"]))
